@@ -57,7 +57,7 @@ def ensure_ref(prog):
 def in_vocab(t) -> bool:
     """No unresolved name / undefined value occurs in the term: every head is a resolved
     library object, an lcm function, a parameter or a closure."""
-    return all(s[0] not in ("unknown", "undef") for s in walk(t))
+    return all(s[0] != "unknown" for s in walk(t))
 
 
 def param_names(node):
